@@ -470,8 +470,8 @@ impl InterpND {
     }
 
     pub fn linear(&self, point: &[f64]) -> Result<f64, String> {
-        // Dimensionality
-        let mut n = self.values.ndim();
+        // Dimensionality (the same notion `validate` and `validate_inputs` use: a single value is 0-D)
+        let mut n = self.ndim();
 
         // Point can share up to N values of a grid point, which reduces the problem dimensionality
         // i.e. the point shares one of three values of a 3-D grid point, then the interpolation becomes 2-D at that slice
